@@ -666,34 +666,20 @@ def same_result(a, b, tol=0.0):
     return True
 
 
-def build_table(tier):
-    """All rows in forks of one zygote; a subset (quick) / all (thorough) also in new interpreters."""
+def build_rows(keys, validate, jobs):
+    """Compute table rows (dict id -> key) in forks of one zygote; ``validate`` rows also in new interpreters."""
     from concurrent.futures import ThreadPoolExecutor
 
-    keys = {}
-    per_group = {}
-    for g in GROUPS:
-        ks = all_keys(g, tier)
-        per_group[g] = ks
-        keys.update(ks)
-    jobs = int(os.environ.get("VERIF_JOBS", "0") or 0) or min(16, os.cpu_count() or 1)
     fork_dir, new_dir = table_dir("fork"), table_dir("new")
     todo = [k for kid, k in sorted(keys.items()) if not os.path.exists(os.path.join(fork_dir, kid + ".npz"))]
-    if tier == "thorough":
-        validate = dict(keys)
-    else:  # one row of every group (every kind of call, every distance object)
-        validate = {}
-        for g, ks in per_group.items():
-            if g not in ("w-shared", "cross"):
-                kid = sorted(ks)[0]
-                validate[kid] = ks[kid]
     validate = {kid: k for kid, k in validate.items() if not os.path.exists(os.path.join(new_dir, kid + ".npz"))}
-    t0 = time.time()
     zy = None
     if todo:
-        kf = os.path.join(fork_dir, "keys.json")
-        json.dump(todo, open(kf, "w"))
-        zy_err = open(os.path.join(fork_dir, "zygote.stderr"), "w")
+        kf = os.path.join(fork_dir, f"keys-{os.getpid()}.json")
+        with open(kf, "w") as f:
+            json.dump(todo, f)
+        errp = os.path.join(fork_dir, f"zygote-{os.getpid()}.stderr")
+        zy_err = open(errp, "w")
         zy = subprocess.Popen(
             [sys.executable, "-W", "ignore", "-c", "import props.c16 as m; m.zygote_main()", kf, fork_dir, str(jobs)],
             cwd=HOME, env=dict(os.environ), stdout=subprocess.DEVNULL, stderr=zy_err,
@@ -704,7 +690,7 @@ def build_table(tier):
         zy.wait(timeout=3600)
         zy_err.close()
         if zy.returncode != 0:
-            raise RuntimeError(f"C16 zygote failed: {open(os.path.join(fork_dir, 'zygote.stderr')).read()[-1500:]}")
+            raise RuntimeError(f"C16 zygote failed: {open(errp).read()[-1500:]}")
     missing = [k for kid, k in keys.items() if not os.path.exists(os.path.join(fork_dir, kid + ".npz"))]
     if missing:
         raise RuntimeError(f"C16 oracle table incomplete: {missing[:3]}")
@@ -714,7 +700,36 @@ def build_table(tier):
             bad.append(k)
     if bad:
         raise RuntimeError(f"C16 oracle table not reproducible across interpreters (harness assumption broken): {bad[:3]}")
-    return {"rows": len(keys), "validated_in_new_interpreters": len(validate), "seconds": round(time.time() - t0, 1)}
+    return len(validate)
+
+
+def build_table(tier):
+    """All rows of all groups; a subset (quick) / all (thorough) also in genuinely new interpreters."""
+    keys = {}
+    per_group = {}
+    for g in GROUPS:
+        ks = all_keys(g, tier)
+        per_group[g] = ks
+        keys.update(ks)
+    jobs = int(os.environ.get("VERIF_JOBS", "0") or 0) or min(16, os.cpu_count() or 1)
+    if tier == "thorough":
+        validate = dict(keys)
+    else:  # one row of every group (every kind of call, every distance object)
+        validate = {}
+        for g, ks in per_group.items():
+            if g not in ("w-shared", "cross"):
+                kid = sorted(ks)[0]
+                validate[kid] = ks[kid]
+    t0 = time.time()
+    nval = build_rows(keys, validate, jobs)
+    return {"rows": len(keys), "validated_in_new_interpreters": nval, "seconds": round(time.time() - t0, 1)}
+
+
+def ensure_rows(g, tier):
+    """Replay / debugging path: the rows of one group, if the run did not pre-build the table."""
+    keys = all_keys(g, tier)
+    if any(key_id(k) not in _MEMO and not os.path.exists(os.path.join(table_dir("fork"), key_id(k) + ".npz")) for k in keys.values()):
+        build_rows(keys, {}, min(8, os.cpu_count() or 1))
 
 
 # ==================================================================== hidden-state roots
@@ -840,8 +855,8 @@ class Explorer:
     def __init__(self, group, tier, r):
         self.g, self.tier, self.r = group, tier, r
         self.objs, self.ops, self.mode = group_spec(group, tier)
-        self.tol = 0.0
         worker_init()
+        ensure_rows(group, tier)
 
     # ---- state handling
     def fresh(self):
